@@ -16,7 +16,11 @@ PROP = {'rule': 'rapid-generated cases. cacheHistory: state machine (~40 steps) 
          'all fed the same generated reservation add / bind / update / terminate / rollback / delete events (and a few assigned pods) through '
          'each plugin\'s own handler and through the real global handler captured from eventhandlers.AddScheduleEventHandler, the global '
          'handler at a drawn position among them; non-trivial = >=2 profiles and an API delete of a reservation that is Available (held by '
-         'every profile) at that moment. ownerMatch: 0-3 owners (object ref / controller ref / label selector, any combination incl. '
+         'every profile) at that moment. preAllocation: one pre-allocation reservation (default mode, single or multiple, required or not) '
+         'with 1-3 owner terms of mixed shape (selector / selector+controller / controller / selector+object / object) and 1-5 running pods '
+         '(app label, ReplicaSet controller, node, size, some already reservation-allocated) fed through the pod lister; the reserve pod runs '
+         'BeforePreFilter, PreFilter, Filter, Reserve; non-trivial = a candidate pod that satisfies the selector of one term and the references '
+         'of another but no whole term. ownerMatch: 0-3 owners (object ref / controller ref / label selector, any combination incl. '
          'the empty owner) x pod (name, namespace, uid, labels, 0-2 owner references) over small value pools; non-trivial = an owner with '
          '>=2 selectors ANDed or >=2 owners ORed. distinct = FNV-64 fingerprint of the full case (history).',
  'assumptions': ['a reservation never changes node once Available; amounts, reserved dimension set, restricted-resources option, labels, '
@@ -31,17 +35,18 @@ PROP = {'rule': 'rapid-generated cases. cacheHistory: state machine (~40 steps) 
                  'multiProfile: "no longer exists" is asserted for reservations deleted from the API; a reservation that still exists but is no '
                  'longer Available on a node (terminated, rolled back) and is still known to some profile is only counted',
                  'requests are whole milli-cores / bytes / pieces (what the API server admits), so milli-unit integer arithmetic is exact',
-                 'owner specifications are syntactically valid label selectors; reservation-operating-mode pods and pre-allocation are '
-                 'not generated',
+                 'owner specifications are syntactically valid label selectors; reservation-operating-mode pods and the cluster '
+                 'pre-allocation mode are not generated',
                  'the fit check is asserted in both directions (accepted iff every counted dimension and the pods dimension fit); the '
                  'statement itself only requires the "accepted only if" direction (signatures fit:accepted-* / fit:restricted-admitted-*)'],
  'units': [{'name': 'plugin',
             'pkg': 'pkg/scheduler/plugins/reservation',
-            'files': ['C05/c05_cache_test.go', 'C05/c05_nominate_test.go', 'C05/c05_multiprofile_test.go'],
+            'files': ['C05/c05_cache_test.go', 'C05/c05_nominate_test.go', 'C05/c05_multiprofile_test.go', 'C05/c05_prealloc_test.go'],
             'tests': [{'run': 'TestVerifC05CacheHistory', 'quick': 4000, 'thorough': 20000, 'steps': 40},
                       {'run': 'TestVerifC05Fit', 'quick': 10000, 'thorough': 80000},
                       {'run': 'TestVerifC05Nominate', 'quick': 2000, 'thorough': 8000},
-                      {'run': 'TestVerifC05MultiProfile', 'quick': 2000, 'thorough': 8000, 'steps': 25}]},
+                      {'run': 'TestVerifC05MultiProfile', 'quick': 2000, 'thorough': 8000, 'steps': 25},
+                      {'run': 'TestVerifC05PreAllocation', 'quick': 3000, 'thorough': 12000}]},
            {'name': 'owners',
             'pkg': 'pkg/util/reservation',
             'files': ['C05/c05_owner_test.go'],
